@@ -38,7 +38,7 @@ META = {
                   "(B) generated override histories on the extracted mechanism model (configured as closurize.rs is, read from source), on the extracted specification and on the real interpreter (every field of every step, by value or error class; normal and with hook H4). "
                   "(O) on the implementation alone, structured records with static, nested, piecewise, dynamically named and included fields, dependencies through arithmetic, interpolation, if, arrays, functions, match, inline records, contracts depending on fields, 1-3 overriding operands in 7 merge shapes: merged = textually substituted record (whole export, and leaf by leaf when some field fails), = the same with all dependencies unknown, operands read after the merge = operands alone, merge after forcing the operands = merge.",
     "level_note": "Trusted: Coq kernel; extraction (ExtrOcamlBasic only); harness bins c07fv and nkeval; the Python generators; the reading of lazy.rs / merge.rs / fixpoint.rs / closurize.rs / eval/mod.rs in coq/Rec/Mech.v (value level: Rc<RefCell> thunks as cells of a list heap; `cached = Some rid` stands for the closure built by init_cached; saturate's explicit function + application is represented by a body that keeps its own dependency filter; constants are standard thunks; the order of fields inside a record and memoisation of evaluated thunks are not modelled - the latter is exercised by the forcing-order variants of the correspondence). "
-                  "Partial: the Coq mechanism/specification cover records of integer expressions nested two levels deep (the inner instance is obtained by substituting the outcomes of the enclosing instance's fields, which its immutability justifies; thunk environments are not modelled as such); a record reached through an alias (`b = a` with `a` a record), records inside nested records, and the structural comparison of two records by a contract are reported by the model as outside the fragment and not compared; piecewise paths, includes, strings, arrays, functions and general contract expressions are covered by part A (dependency analysis, all syntax) and by the direct oracles on the implementation, not by the refinement proof. Finding fixed during the build: dynamic-field-not-recomputed (8192ce0, patch kept in proposed/C07-record-insert-keep-revertible-thunk.diff).",
+                  "Partial: the Coq mechanism/specification cover records of integer expressions nested two levels deep (the inner instance is obtained by substituting the outcomes of the enclosing instance's fields, which its immutability justifies; thunk environments are not modelled as such); a record reached through an alias (`b = a` with `a` a record), records inside nested records, and the structural comparison of two records by a contract are reported by the model as outside the fragment and not compared; piecewise paths, includes, strings, arrays, functions and general contract expressions are covered by part A (dependency analysis, all syntax) and by the direct oracles on the implementation, not by the refinement proof. Hook H4 (all dependencies unknown) is dynamic scoping: it equals the normal run only on closed literals (C07_depsunknown_equiv); a nested literal that mentions a field of the enclosing record is not closed, and under H4 a field of that name merged into the nested record later captures the mention, so histories with nested literals are not run under H4 (the broad generator keeps the names of the two levels apart). Finding fixed during the build: dynamic-field-not-recomputed (8192ce0, patch kept in proposed/C07-record-insert-keep-revertible-thunk.diff).",
 }
 
 REPO = core.REPO
